@@ -57,8 +57,9 @@ META = {
                 "the syntactic alias rules of harness/extract.py behind lean/Pose/Gen/Purity.lean (conservative may-alias "
                 "analysis of the anchored sources; `source_purity` is a theorem about that table)",
                 "python `ast` extraction of HANDLED_FUNCTIONS (harness/extract.py)"],
-    "assumptions": ["retain_restores assumes every patched torch attribute's (__module__, __name__) designates its own slot "
-                    "or a non-torch slot (WellHomed) — checked on the real attributes at run time",
+    "assumptions": ["axioms of the theorems: ⊆ {propext, Classical.choice, Quot.sound}",
+                    "retain_restores (code since D44: restoring by saved (module, name, function) triples) needs no hypothesis on the "
+                    "table; the pre-D44 policy `homeCur` is kept as the model of the reverted code (policy read from the source)",
                     "item-level kernels are treated as opaque functions f: the theorems are about pairing/shape, the "
                     "values of f are the business of C01-C05"],
     "partial": ["non-mutation of arguments is a statement about side effects of Python code; the functional model is pure by "
@@ -1486,6 +1487,73 @@ def torch_slots():
 _ORIG = None
 
 
+def touched_modules():
+    """every module retain_ltype may write to: the three patched torch modules, the module `_add_batch_dim` is defined in,
+    and pypose's own lietensor module (home of the wrapper closures)"""
+    import torch._functorch.eager_transforms as E
+    import torch._functorch.vmap as V
+    import torch.autograd.forward_ad as F
+    mods = [F, E, V]
+    try:
+        import torch._functorch.predispatch as PD
+        mods.append(PD)
+    except Exception:
+        pass
+    from pypose.lietensor import lietensor as L
+    return mods + [L]
+
+
+def _from_pypose(v):
+    return (getattr(v, "__module__", "") or "").startswith("pypose") or "retain_ltype" in (getattr(v, "__qualname__", "") or "")
+
+
+def attr_snapshot():
+    """{module name: {attribute: (id(value), value comes from pypose?)}} of the touched modules, plus the
+    (__module__, __name__) metadata of the three original functions"""
+    snap = {m.__name__: {k: (id(v), _from_pypose(v)) for k, v in vars(m).items()} for m in touched_modules()}
+    snap["<metadata>"] = {f"slot{k}": ((o.__module__, o.__name__), False) for k, o in enumerate(originals())}
+    return snap
+
+
+SLOT_NAMES = {"make_dual", "_wrap_tensor_for_grad", "_add_batch_dim"}
+
+
+def attr_diff(before, after):
+    """what pypose left behind: attributes that are new / changed / removed AND (hold a pypose object now or before, or are one
+    of the three patched names, or metadata of the originals).  torch's own lazily initialised module state (e.g.
+    predispatch.DECOMPOSITIONS_LOADED flipping on the first vmap of the process) is not pypose's patching and is ignored."""
+    out = []
+    for mod in before:
+        b, a = before[mod], after.get(mod, {})
+        for k in a:
+            rel = a[k][1] or (k in b and b[k][1]) or k in SLOT_NAMES or mod == "<metadata>"
+            if k not in b and rel:
+                out.append(f"{mod}.{k} (new)")
+            elif k in b and a[k][0] != b[k][0] and rel:
+                out.append(f"{mod}.{k} (changed)")
+        for k in b:
+            if k not in a and (b[k][1] or k in SLOT_NAMES):
+                out.append(f"{mod}.{k} (removed)")
+    return sorted(out)
+
+
+def check_attrs(ctx: Ctx, case, before, what):
+    """full attribute dictionaries of the touched modules (forward_ad, eager_transforms, vmap, predispatch,
+    pypose.lietensor.lietensor) before/after: anything pypose leaves behind is a failure (patching not undone on exit);
+    leftovers are removed so that later cases start clean"""
+    after = attr_snapshot()
+    diff = attr_diff(before, after)
+    if diff:
+        group = "retain-metadata" if all(d.startswith("<metadata>") for d in diff) else "retain-attrs"
+        ctx.fail(dict(case, stray=diff), f"{group}: after {what} the touched modules keep {diff} — patching that is not undone on exit "
+                                         f"(the three patched slots themselves may well be restored)")
+    for m in touched_modules():
+        for k in list(vars(m)):
+            if k not in before[m.__name__] and _from_pypose(vars(m)[k]):
+                delattr(m, k)
+    return diff
+
+
 def originals():
     global _ORIG
     if _ORIG is None:
@@ -1505,7 +1573,7 @@ def describe(f, orig):
             return "w" * depth + "?"
         f = f.__closure__[code.co_freevars.index("func")].cell_contents
         depth += 1
-        if depth > 20:
+        if depth > 200:
             return "?"
 
 
@@ -1516,8 +1584,10 @@ def gen_body(rng, depth=0, budget=6):
         return ["r"]
     if c < 0.38:
         return ["x"]
-    if c < 0.75 or depth >= 3:
+    if c < 0.7 or depth >= 3:
         return [f"c{rng.randrange(3)}"] + gen_body(rng, depth, budget - 1)
+    if c < 0.82:          # try: inner  except: handler ; continuation
+        return ["t"] + gen_body(rng, depth, budget - 2) + gen_body(rng, depth, budget - 3) + gen_body(rng, depth, budget - 3)
     return ["n"] + gen_body(rng, depth + 1, budget - 2) + gen_body(rng, depth, budget - 2)
 
 
@@ -1536,6 +1606,7 @@ def small_bodies(maxlen):
         for t in ["c0", "c2"]:
             go(prefix + [t], need, left - 1)
         go(prefix + ["n"], need + 1, left - 1)
+        go(prefix + ["t"], need + 2, left - 1)
     go([], 1, maxlen)
     return out
 
@@ -1558,6 +1629,16 @@ def interp_body(toks, pos, log, orig):
         with P.retain_ltype():
             interp_body(toks, pos + 1, log, orig)
         return interp_body(toks, end_inner, log, orig)
+    if t == "t":
+        end_inner = skip_body(toks, pos + 1)
+        end_handler = skip_body(toks, end_inner)
+        try:
+            interp_body(toks, pos + 1, log, orig)
+        except (BodyRaise, ValueError, KeyError, ZeroDivisionError) as e:
+            if "body" not in str(e):
+                raise
+            interp_body(toks, end_inner, log, orig)
+        return interp_body(toks, end_handler, log, orig)
     raise ValueError(t)
 
 
@@ -1567,6 +1648,8 @@ def skip_body(toks, pos):
         return pos + 1
     if t.startswith("c"):
         return skip_body(toks, pos + 1)
+    if t == "t":
+        return skip_body(toks, skip_body(toks, skip_body(toks, pos + 1)))
     return skip_body(toks, skip_body(toks, pos + 1))
 
 
@@ -1580,6 +1663,7 @@ def check_retain(ctx: Ctx, case):
     outcome = "ok"
     real_import = importlib.import_module
     calls = {"n": 0}
+    snap = attr_snapshot()
 
     def flaky(name, package=None):
         k = calls["n"]
@@ -1610,7 +1694,18 @@ def check_retain(ctx: Ctx, case):
                        f"attributes are {slots} instead of the originals")
         for (m, n), o in zip(torch_slots(), orig):      # repair, so that later cases are meaningful
             setattr(m, n, o)
-    return slots, outcome, log
+    diff = check_attrs(ctx, case, snap, f"`with retain_ltype()` (body {' '.join(toks[:14])}{'…' if len(toks) > 14 else ''})")
+    return slots, outcome, log, diff
+
+
+def retain_policy():
+    """which home policy the source implements: by `(__module__, __name__)` look-ups (`cur`) or by saved slots (`slot`)"""
+    import inspect
+    try:
+        src = inspect.getsource(pp().retain_ltype.__wrapped__)
+    except Exception:
+        src = "__module__"
+    return "cur" if "__module__" in src else "slot"
 
 
 def stream_retain(ctx: Ctx):
@@ -1620,7 +1715,7 @@ def stream_retain(ctx: Ctx):
     # the WellHomed hypothesis of retain_restores, on the real attributes (after retain_ltype's own __module__ fix-up)
     with P.retain_ltype():
         pass
-    for k, ((m, n), o) in enumerate(zip(torch_slots(), orig)):
+    for k, ((m, n), o) in enumerate(zip(torch_slots(), orig)) if retain_policy() == "cur" else []:
         try:
             home = getattr(importlib.import_module(o.__module__), o.__name__, None)
         except Exception:
@@ -1628,29 +1723,38 @@ def stream_retain(ctx: Ctx):
         if home is not o or importlib.import_module(o.__module__) is not m:
             ctx.disagree("retain", {"kind": "wellhomed", "slot": k},
                          f"slot {k}: ({o.__module__}, {o.__name__}) does not designate the patched attribute {m.__name__}.{n}")
+    policy = retain_policy()
+    ctx.count(f"retain.policy.{policy}")
     cases = [{"kind": "retain", "body": b, "fail_at": -1} for b in small_bodies(4 if ctx.quick else 6)]
     for _ in range(ctx.pick(60, 600)):
         cases.append({"kind": "retain", "body": gen_body(rng), "fail_at": -1})
     from . import util_c06c as B3
     for b in B3.deep_bodies():          # arbitrary nesting depth (5, 12, 40 contexts inside one another)
         cases.append({"kind": "retain", "body": b, "fail_at": -1})
-    cases.append({"kind": "retain", "body": B3.deep_bodies()[2], "fail_at": 1})
-    for j in range(3):
-        cases.append({"kind": "retain", "body": ["r"], "fail_at": j})
-        cases.append({"kind": "retain", "body": ["c1", "r"], "fail_at": j})
+    if policy == "cur":       # a fault inside the patch loop exists only where the loop looks modules up by name
+        cases.append({"kind": "retain", "body": B3.deep_bodies()[2], "fail_at": 1})
+        for j in range(3):
+            cases.append({"kind": "retain", "body": ["r"], "fail_at": j})
+            cases.append({"kind": "retain", "body": ["c1", "r"], "fail_at": j})
     lines = []
     results = []
     for c in cases:
         results.append(check_retain(ctx, c))
-        lines.append(f"c06.retain 0 1 2 {c['fail_at']} " + " ".join(c["body"]))
+        lines.append(f"c06.retain {policy} 0 1 2 {c['fail_at']} " + " ".join(c["body"]))
         ctx.note_case(("retain", tuple(c["body"]), c["fail_at"]), True)
         ctx.count("retain." + ("raise" if "x" in c["body"] else "return") + (".nested" if "n" in c["body"] else ""))
     reps = ctx.driver.run(lines)
-    for c, (slots, outcome, log), rep in zip(cases, results, reps):
+    for c, (slots, outcome, log, diff), rep in zip(cases, results, reps):
         st, toks = common.parse_reply(rep)
         if st != "ok":
             raise common.InfraError(f"model error reply: {rep}")
-        m_slots, m_out, m_log = toks[0:3], toks[4], [t for t in toks[5:] if t]
+        m_slots, m_out, m_log = toks[0:3], toks[5], [t for t in toks[6:] if t]
+        # the junk slots of the model: 3 = pypose.lietensor.lietensor.wrapper, 4 = torch._functorch.vmap.wrapper
+        for slot, attr in ((3, "pypose.lietensor.lietensor.wrapper"), (4, "torch._functorch.vmap.wrapper")):
+            left = any(d.startswith(attr + " ") for d in diff)
+            if left != (toks[slot] != f"o{slot}"):
+                ctx.disagree("retain", c, f"body {' '.join(c['body'][:14])}: implementation {'leaves' if left else 'does not leave'} `{attr}` behind, "
+                                          f"model ({policy}) slot {slot} = {toks[slot]}")
         # an exception in the patch loop happens before the body: the model's log is empty there as well
         # the property is about the slots after exit; inside the body a call must find a wrapper — how deep the wrappers
         # nest under re-entry (the model says once: nested contexts write slot 3) is not part of the property
@@ -1684,6 +1788,7 @@ def stream_retain(ctx: Ctx):
                 return out, out.detach()
             return out
         p0, q0 = pose.tensor().clone(), pts.clone()
+        snap = attr_snapshot()
         try:
             J = P.func.jacrev(f, has_aux=(fname == "aux"))(pose, pts)
             raised = False
@@ -1701,6 +1806,7 @@ def stream_retain(ctx: Ctx):
                            f"{[describe(getattr(m, n), orig) for m, n in torch_slots()]}")
             for (m, n), o in zip(torch_slots(), orig):
                 setattr(m, n, o)
+        check_attrs(ctx, case, snap, f"pp.func.jacrev ({fname}, {lt})")
         if not torch.equal(pose.tensor(), p0) or not torch.equal(pts, q0):
             ctx.fail(case, "mutation: pp.func.jacrev changed an argument")
         if fname.startswith("raise") and raised is False:
@@ -1860,6 +1966,7 @@ def stream_reuse(ctx: Ctx):
         state["raise"], state["seen"] = rs, []
         ctx.note_case(("reuse", "jacrev", step), True)
         ctx.count("reuse.jacrev")
+        snap = attr_snapshot()
         try:
             J = jf(pose, pts)
             got = "ok"
@@ -1873,6 +1980,7 @@ def stream_reuse(ctx: Ctx):
             ctx.fail(case, f"retain: after call #{step} of one jacrev wrapper the torch attributes are "
                            f"{[describe(getattr(m, n_), orig) for m, n_ in torch_slots()]}")
             _restore_slots(orig)
+        check_attrs(ctx, case, snap, f"call #{step} of one jacrev wrapper")
         if state["seen"] and state["seen"][0] != ("LieTensor", lt):
             ctx.fail(case, f"ltype: call #{step} of one jacrev wrapper: the {lt} argument arrives as {state['seen'][0]}")
         if got == "ok" and not rs:
@@ -2059,7 +2167,7 @@ def snapshot_globals():
 # ============================================================================= entry points (streams are added below)
 
 PASS2 = ["argcombo", "errors", "gradmode", "duck", "copies", "ownership", "interleave"]
-PASS3 = ["static", "torchb", "sig", "effects"]
+PASS3 = ["static", "torchb", "sig", "effects", "dispatch"]
 PASS4 = ["defaults", "modeorder", "subclass", "large"]
 
 
@@ -2102,6 +2210,7 @@ def run(ctx: Ctx):
     guarded(ctx, "torchb", lambda: B3.stream_torchb(ctx))
     guarded(ctx, "sig", lambda: B3.stream_sig(ctx))
     guarded(ctx, "effects", lambda: B3.stream_effects(ctx, names))
+    guarded(ctx, "dispatch", lambda: B3.stream_dispatch(ctx))
     from . import util_c06d as B4
     guarded(ctx, "defaults", lambda: B4.stream_defaults(ctx, names))
     guarded(ctx, "subclass", lambda: B4.stream_subclass(ctx))
@@ -2173,7 +2282,7 @@ def replay(ctx: Ctx, case) -> bool:
         from . import util_c06d as B4
         torch.set_num_threads(1)
         getattr(B4, "stream_" + kind)(ctx)
-    elif kind in ("static", "torchb", "sig", "effects"):
+    elif kind in ("static", "torchb", "sig", "effects", "dispatch"):
         from . import util_c06c as B3
         getattr(B3, "stream_" + kind)(ctx)
     elif kind in PASS2:
@@ -2197,9 +2306,9 @@ def replay(ctx: Ctx, case) -> bool:
     elif kind in ("ctor",):
         check_ctor(ctx, c)
     elif kind == "retain":
-        slots, outcome, log = check_retain(ctx, c)
-        print("  implementation: slots", slots, "outcome", outcome, "calls saw", log)
-        print("  model:", ctx.driver.run([f"c06.retain 0 1 2 {c.get('fail_at', -1)} " + " ".join(c["body"])])[0])
+        slots, outcome, log, diff = check_retain(ctx, c)
+        print("  implementation: slots", slots, "outcome", outcome, "calls saw", log, "leftovers", diff)
+        print("  model:", ctx.driver.run([f"c06.retain {retain_policy()} 0 1 2 {c.get('fail_at', -1)} " + " ".join(c["body"])])[0])
     elif kind == "purity":
         check_purity(ctx, c)
     elif kind in ("tf", "tf-kwargs", "jacrev", "param", "ctor-bad", "binputs", "binputs1", "table", "utable", "regen",
